@@ -90,7 +90,7 @@ def main():
                                stderr=subprocess.STDOUT, text=True)
             lines = [l for l in r.stdout.splitlines() if l.startswith(("VIOLATION", "  key=", "KNOWN", "INCONCLUSIVE", prop))]
             print("\n".join(lines[:12]))
-            verdict = "CAUGHT" if r.returncode == 1 else ("MISSED" if r.returncode == 0 else "RC=%d" % r.returncode)
+            verdict = "CAUGHT" if (r.returncode == 1 and any(l.startswith("VIOLATION") for l in r.stdout.splitlines())) else ("MISSED" if r.returncode == 0 else "RC=%d" % r.returncode)
             print("MUTANT %s vs %s: %s" % (name, prop, verdict))
             if r.returncode != 1:
                 rc_all = 1
